@@ -2,12 +2,98 @@
 #![allow(dead_code, unsafe_code, missing_docs, unused_imports, static_mut_refs, clippy::all)]
 include!("/verif/harness/common/macros.rs");
 use super::*;
+use crate::keypair::SecretKey as _;
 use crate::verif_kani::harnesses;
 use crate::verif_kani::model::*;
 use crate::verif_kani::spec;
 use crate::verif_kani::spec_prims as sp;
 use crate::verif_kani::vk::*;
 
+fn hkdf_of(rpwd: &[u8; 8]) -> Hkdf<MHash> {
+    Hkdf::<MHash>::from_prk(rpwd).unwrap()
+}
+
+/// identities: presence flags x lengths 0/2 handled by concrete cases
+fn ids_case<'a>(has_c: bool, c: &'a [u8], has_s: bool, s: &'a [u8]) -> Identifiers<'a> {
+    Identifiers { client: if has_c { Some(c) } else { None }, server: if has_s { Some(s) } else { None } }
+}
+
+fn seal_case(has_c: bool, clen: usize, has_s: bool, slen: usize) {
+    let rpwd = any_bytes::<8>();
+    let spkv = any_u8();
+    assume(spkv >= 1 && spkv <= 240);
+    let idc = any_bytes::<2>();
+    let ids = any_bytes::<2>();
+    let mut tape = Tape::symbolic();
+    let spk = PublicKey::<G241>::deserialize(&[PK_TAG, spkv]).unwrap();
+    let r = Envelope::<M>::seal(&mut tape, hkdf_of(&rpwd), &spk, ids_case(has_c, &idc[..clen], has_s, &ids[..slen]));
+    check!(r.is_ok(), "sealing succeeds");
+    let Ok(res) = r else { return };
+    let envb = res.0.serialize(); // nonce(32) | auth_tag(8)
+    check!(tape.pos == 32 && eq_bytes(&envb[0..32], &tape.buf[0..32]), "envelope nonce is 32 fresh bytes from the caller's RNG");
+    let spkb = [PK_TAG, spkv];
+    let (csk, cpk, export) = spec::envelope_keys(&rpwd, &envb[0..32]);
+    let id_s: &[u8] = if has_s { &ids[..slen] } else { &spkb };
+    let id_u: &[u8] = if has_c { &idc[..clen] } else { &cpk };
+    let e = spec::envelope(&rpwd, &envb[0..32], &spkb, id_s, id_u);
+    check!(eq_bytes(&res.1.serialize(), &cpk), "client public key == DeriveDiffieHellmanKeyPair(Expand(randomized_pwd, nonce || PrivateKey))");
+    check!(eq_bytes(&res.2, &export), "export key == Expand(randomized_pwd, nonce || ExportKey)");
+    check!(eq_bytes(&envb[32..40], &e.auth_tag), "auth_tag == MAC(auth_key, nonce || server_pk || len||id_s || len||id_u) with defaulted identities");
+    let _ = csk;
+    cover!(true, "reached");
+    core::mem::forget((res, spk));
+}
+
+fn open_case(has_c: bool, clen: usize, has_s: bool, slen: usize) {
+    let rpwd = any_bytes::<8>();
+    let spkv = any_u8();
+    assume(spkv >= 1 && spkv <= 240);
+    let idc = any_bytes::<2>();
+    let ids = any_bytes::<2>();
+    let envb = any_bytes::<40>();
+    let spk = PublicKey::<G241>::deserialize(&[PK_TAG, spkv]).unwrap();
+    let env = Envelope::<M>::deserialize(&envb).unwrap();
+    let r = env.open(hkdf_of(&rpwd), spk, ids_case(has_c, &idc[..clen], has_s, &ids[..slen]));
+    let spkb = [PK_TAG, spkv];
+    let (csk, cpk, export) = spec::envelope_keys(&rpwd, &envb[0..32]);
+    let id_s: &[u8] = if has_s { &ids[..slen] } else { &spkb };
+    let id_u: &[u8] = if has_c { &idc[..clen] } else { &cpk };
+    let e = spec::envelope(&rpwd, &envb[0..32], &spkb, id_s, id_u);
+    let tag_ok = eq_bytes(&envb[32..40], &e.auth_tag);
+    match r {
+        Ok(o) => {
+            check!(tag_ok, "envelope opens only if its tag is the MAC over nonce, server key and both identities");
+            check!(o.client_static_keypair.private().serialize()[0] == csk, "recovered client private key per RFC 9807 4.1.3");
+            check!(eq_bytes(&o.client_static_keypair.public().serialize(), &cpk), "recovered client public key");
+            check!(eq_bytes(&o.export_key, &export), "export key at open == export key at seal (same formula)");
+            // the identities handed on to the key exchange are the effective ones
+            {
+                let mut it = o.id_u.iter();
+                let (p, v) = (it.next(), it.next());
+                check!(p.map(|x| x.len() == 2 && x[1] as usize == id_u.len()) == Some(true) && v.map(|x| eq_bytes(x, id_u)) == Some(true), "effective client identity handed on");
+            }
+            {
+                let mut it = o.id_s.iter();
+                let (p, v) = (it.next(), it.next());
+                check!(p.map(|x| x.len() == 2 && x[1] as usize == id_s.len()) == Some(true) && v.map(|x| eq_bytes(x, id_s)) == Some(true), "effective server identity handed on");
+            }
+            cover!(true, "opened");
+            core::mem::forget(o);
+        }
+        Err(err) => {
+            check!(!tag_ok, "an envelope with the right tag opens");
+            check!(matches!(err, ProtocolError::LibraryError(InternalError::SealOpenHmacError)), "tag mismatch is reported as the seal-open error");
+            cover!(true, "rejected");
+        }
+    }
+    core::mem::forget(env);
+}
+
 harnesses! {
-    fn env_placeholder [unwind = 4] { cover!(true, "reached"); }
+    fn s9_seal_default_ids [unwind = 46] { seal_case(false, 0, false, 0); }
+    fn s9_seal_explicit_ids [unwind = 46] { seal_case(true, 2, true, 1); }
+    fn s9_seal_mixed_ids [unwind = 46] { seal_case(false, 0, true, 0); }
+    fn s9_open_default_ids [unwind = 46] { open_case(false, 0, false, 0); }
+    fn s9_open_explicit_ids [unwind = 46] { open_case(true, 2, true, 1); }
+    fn s9_open_mixed_ids [unwind = 46] { open_case(true, 0, false, 0); }
 }
